@@ -3,6 +3,7 @@ use crate::common::*;
 pub mod c02;
 pub mod c07;
 pub mod c09;
+pub mod c10;
 pub mod c11;
 pub mod store_h;
 pub mod tmodel;
@@ -27,6 +28,7 @@ pub fn dispatch(id: &str, tier: Tier, replay: Option<&str>) -> i32 {
         "C07" => c07::run(tier),
         "C08" => c08::run(tier),
         "C09" => c09::run(tier),
+        "C10" => c10::run(tier),
         "C11" => c11::run(tier),
         "C14" => c14::run(tier),
         "C15" => c15::run(tier),
